@@ -69,3 +69,26 @@ def dense_partition_points(V, N, K, nmin=1):
 
 def chunk_multisets(alphabet, nmin, nmax, size):
     return list(spaces.chunked(spaces.multisets(alphabet, nmin, nmax), size))
+
+
+# ---- extension scopes shared by several properties (all finite, all enumerated completely)
+# magnitudes at which an int32 / float32 / relative tolerance would bite, still exact in float64 (totals < 2**53)
+BIG_VALUES = (0, 1, 2 ** 24 + 1, 2 ** 31 + 1, 2 ** 32 + 3, 2 ** 40 + 5)
+# many items over tiny alphabets: (alphabet, min items, max items quick, max items thorough)
+LONG_THIN = [((1, 2), 9, 15, 24), ((1, 2, 3), 9, 12, 16), ((0, 1, 5), 9, 11, 13), ((2, 3, 7), 9, 11, 13)]
+
+
+def long_thin_multisets(tier):
+    for alpha, lo, hq, ht in LONG_THIN:
+        for ms in spaces.multisets(alpha, lo, hq if tier == "quick" else ht):
+            yield ms
+
+
+def long_thin_bins(n):
+    return sorted({2, 3, 4, 5, 7, n, n + 1})
+
+
+def scramble(ms):
+    """A fixed, non-sorted presentation of a multiset (sorted input hides a missing sort): riffle of the ascending order."""
+    a = sorted(ms)
+    return tuple(a[1::2] + a[0::2])
